@@ -483,17 +483,33 @@ def check_forwarding(ctx):
     defs = util.single_defs(f)
 
     def source(n):
+        # (collection, order kept?)  - enumerating / copying keeps the order, sorting or reversing does not
+        kept = True
         for _ in range(6):
             n = util.resolve_alias(n, defs)
-            if isinstance(n, ast.Call) and src(n.func) in ('enumerate', 'sorted', 'list', 'tuple') and len(n.args) == 1 and not n.keywords:
+            if isinstance(n, ast.Call) and src(n.func) in ('enumerate', 'list', 'tuple') and len(n.args) == 1 and not n.keywords:
                 n = n.args[0]
+            elif isinstance(n, ast.Call) and src(n.func) in ('sorted', 'reversed', 'set', 'frozenset') and len(n.args) == 1:
+                n = n.args[0]
+                kept = False
+            elif isinstance(n, ast.Subscript) and isinstance(n.slice, ast.Slice) and n.slice.lower is None and n.slice.upper is None:
+                kept = kept and (n.slice.step is None)
+                n = n.value
             else:
                 break
-        return k(src(n))
-    sources = [source(lp.iter) for lp in ast.walk(f) if isinstance(lp, ast.For)]
-    for want_src in ('self.get_param_list()', 'self.get_species()', 'self.reaction_definitions', 'self.rule_definitions'):
+        return k(src(n)), kept
+    sources = dict()
+    for lp in ast.walk(f):
+        if isinstance(lp, ast.For):
+            s_, kept_ = source(lp.iter)
+            sources[s_] = sources.get(s_, True) and kept_
+    # parameters, species and reactions are sets as far as behaviour goes; rules are a sequence: they are applied in list order
+    for want_src, ordered in (('self.get_param_list()', False), ('self.get_species()', False), ('self.reaction_definitions', False),
+                              ('self.rule_definitions', True)):
         if want_src not in sources:
-            miss.append('no loop over all of %s (loops run over %s)' % (want_src, sources))
+            miss.append('no loop over all of %s (loops run over %s)' % (want_src, sorted(sources)))
+        elif ordered and not sources[want_src]:
+            miss.append('%s is written in another order than the model holds it (rules are applied in list order)' % want_src)
     calls = util.calls_in(f, suffix='add_reaction')
     ok = len(calls) == 1 and [src(a) for a in calls[0].args] == ['model', 'reactants', 'products', 'rxn_id', 'propensity_type', 'propensity_param_dict'] and \
         {kw.arg: src(kw.value) for kw in calls[0].keywords} == {'stochastic': 'stochastic_model', 'delay_annotation_dict': 'delay_dict'}
@@ -671,6 +687,7 @@ def check_language(ctx):
     from . import c14
     c14.check_formula_language(ctx, 'R12.5-formula-language', 'add_reaction', 'kinetic-law', 'roundtrip')
     c14.check_formula_language(ctx, 'R12.5-formula-language', 'add_rule', 'rule', 'roundtrip')
+    c14.check_definitions_first(ctx, 'R12.5-formula-language')
     # sibling agreement of the two writing sites: bioscrape accepts both spellings of a power (C02 R2.4), SBML only '^'; a string the
     # parser cannot read must stop the export instead of leaving an element without math
     for fname, site in (('add_reaction', 'kinetic-law'), ('add_rule', 'rule')):
